@@ -6,6 +6,7 @@ fn main() {
         );
     }
 
+    println!("cargo:rustc-check-cfg=cfg(bs_verif)");
     println!("cargo:rustc-link-arg=-Wl,--export-dynamic");
     println!("cargo:rustc-link-tests=-Wl,--export-dynamic");
 }
